@@ -16,7 +16,8 @@ PID = 'C02'
 SOURCES = ['SoupVerif/Properties/C02.lean', 'SoupVerif/Spec/Nth.lean', 'SoupVerif/Lemmas/Nth.lean',
            'SoupVerif/Model/Nth.lean', 'SoupVerif/Model/Match.lean',
            'SoupVerif/Generated/PyAnB.lean', 'SoupVerif/Model/PyStr.lean', 'SoupVerif/Properties/C02Gen.lean',
-           'SoupVerif/Generated/PyNth.lean', 'SoupVerif/Model/PyWhile.lean', 'SoupVerif/Properties/C02GenNth.lean', 'SoupVerif/Properties/C02GenNthTerm.lean']
+           'SoupVerif/Generated/PyNth.lean', 'SoupVerif/Model/PyWhile.lean', 'SoupVerif/Properties/C02GenNth.lean', 'SoupVerif/Properties/C02GenNthTerm.lean',
+           'SoupVerif/Generated/PyAttrs.lean', 'SoupVerif/Properties/C02GenType.lean']
 RULE = ('sibling sequences over {E=li, X=other element, T=text, C=comment} (all sequences up to a length, then random '
         'longer ones), every (A,B) in a square around 0 plus ±len, ±(len±1), the four pseudo-classes, `of S` filters and '
         'keyword forms, plus XML sibling sequences whose `li` elements live in two namespaces queried with a default namespace declared (positions count every element sibling; the type of -of-type is (namespace, name)); each case is checked three ways: PY select vs the brute-force "exists n>=0" oracle (the '
